@@ -10,6 +10,7 @@ mod m_cstr;
 mod m_cb;
 mod m_slice;
 mod m_waker;
+mod m_box;
 
 use std::io::{BufRead, Write};
 
@@ -69,6 +70,7 @@ fn main() {
             14 => m_cstr::run(&hdr[1..], &rows_in, &mut mon),
             15 => m_cb::run(&hdr[1..], &rows_in, &mut mon),
             19 => m_waker::run(&hdr[1..], &rows_in, &mut mon),
+            21 => m_box::run(&hdr[1..], &rows_in, &mut mon),
             _ => vec![vec![-3]],
         };
         alloc::domain(0);
